@@ -93,7 +93,7 @@ CHECKS = {
         assumptions=["Surm smax >= 10 mm (below that its ET term 10*S/smax is not bounded by the store); Sacramento capacities >= 5 mm; GR4J budget only for x2 <= 0",
                      "tolerance 1e-9*(1+sum of magnitudes entering the identity)"],
         quick=dict(stages=[st(4000, timeout=900)]),
-        thorough=dict(stages=[st(25000, shards=16, timeout=3500)]),
+        thorough=dict(stages=[st(100000, shards=16, timeout=3500)]),
     ),
     "C15": dict(
         require={'__nontrivial__': 0.1},
